@@ -25,4 +25,9 @@ example : (buildTree tgt dotQ (-3 / 5) false (1 / 2) (-5 / 8) 2 z0 [1 / 4, 3 / 4
 example : ((transition tgt dotQ (1 / 2) 1 (1 / 2) (1 / 3) [1 / 4, 3 / 4, 1 / 8, 7 / 8] [1 / 2, 1 / 3, 2 / 3, 1 / 5] [1 / 2, 1 / 2, 1 / 2, 1 / 2] 10).map
     fun st => decide (1 ≤ st.nalpha)) = some true := by decide +kernel
 
+/-- … and moves: the final position `9/8 ≠ 1` is the first forward leapfrog point (the second disjunct of
+    `transition_next_state` is inhabited) -/
+example : ((transition tgt dotQ (1 / 2) 1 (1 / 2) (1 / 3) [1 / 4, 3 / 4, 1 / 8, 7 / 8] [1 / 2, 1 / 3, 2 / 3, 1 / 5] [1 / 2, 1 / 2, 1 / 2, 1 / 2] 10).map
+    fun st => decide (st.pos = 9 / 8 ∧ st.pos = (leapfrog tgt (1 / 2) ⟨1, 1 / 2, -1, -1 / 2⟩).pos)) = some true := by decide +kernel
+
 end MiniMcmcVerif.NUTS.NV
